@@ -13,7 +13,7 @@ restore() { git -C /repo checkout -- . ; git -C /repo status --porcelain --untra
 trap restore EXIT
 git -C /repo apply $REV "$PATCH" || { echo "try_patch: patch does not apply"; exit 2; }
 for id in "$@"; do
-  out=$(VERIF_TARGET_DIR=${VERIF_TARGET_DIR:-/verif/target} ./check "$id" --tier "$TIER" 2>/tmp/try_patch_$id.err)
+  out=$(VERIF_EVIDENCE_DIR=/verif/target/patched-evidence VERIF_TARGET_DIR=${VERIF_TARGET_DIR:-/verif/target} ./check "$id" --tier "$TIER" 2>/tmp/try_patch_$id.err)
   rc=$?
   echo "$id rc=$rc"
   echo "$out" | grep -E "^(VIOLATION|KNOWN-FINDING|HARNESS-PROBLEM|BUILD-ERROR|OK)" | cut -c1-400
